@@ -47,6 +47,7 @@ def pool_print_instances(thorough):
         ("unicast", _pool_consts(sock=2, ln=2, dial=1, protos=("a",), addrs="AddrsA0U0", uips=("u1",)), u5),
         ("dq", _pool_consts(sock=2, ln=1, dial=1, share=1, lend=1, protos=("a",), addrs="AddrsA1", kinds=("dq",)), u5),
         ("pref", _pool_consts(sock=2, ln=1, dial=2, protos=("a",), addrs="AddrsA1"), u5),
+        ("uassoc", _pool_consts(sock=2, ln=2, dial=1, protos=("a",), assocs=("x",), addrs="AddrsU0", uips=("u1",)), u5),
         ("faults", _pool_consts(sock=2, ln=1, dial=1, faults=1, protos=("a",), addrs="AddrsA0U0", uips=("u1",), kinds=("dq",)), u5),
         ("single", _pool_consts(reuse=False, sock=2, ln=2, dial=1, share=1, faults=1, kinds=("tfd", "dq")), u5),
         # the package's own constants (30 s / 10 s), untouched
